@@ -226,7 +226,7 @@ def run_job(scratch, job, logdir, tier):
         cbmc_args += ["--unwindset", us]
     sp = dict(spec)
     sp["cbmc_args"] = cbmc_args
-    cmd = kani_cmd(scratch, full, sp, extra)
+    cmd = kani_cmd(scratch, full, sp, extra, os.path.join(scratch, "kt_" + name))
     rc, timed_out, wall = run_limited(cmd, crate_dir(scratch, spec), logf, timeout_s, mem)
     job.wall = wall
     text = open(logf, errors="replace").read()
@@ -246,7 +246,12 @@ def run_job(scratch, job, logdir, tier):
         job.why = "no verdict (%s, rc=%s)" % ("out of memory" if oom else "CBMC error", rc)
         return
     if res["verdict"] == "SUCCESSFUL":
-        bad = [c for c in res["covers"] if c["status"] != "SATISFIED"]
+        # rustc's jump threading may duplicate a `cover!(a && b)` call into a copy with a constant-false
+        # condition: group by source location and require one SATISFIED instance per group
+        groups = {}
+        for c in res["covers"]:
+            groups.setdefault((c["loc"], c["desc"]), []).append(c)
+        bad = [cs[0] for cs in groups.values() if not any(c["status"] == "SATISFIED" for c in cs)]
         if bad:
             job.status = "inconclusive"
             job.why = "vacuity witness not reached: " + "; ".join(c["desc"] or c["id"] for c in bad)
@@ -260,7 +265,10 @@ def run_job(scratch, job, logdir, tier):
     # FAILED
     if not res["failed"]:
         job.status = "inconclusive"
-        job.why = "FAILED without failed checks (undetermined=%d)" % res["undetermined"]
+        if "Out of memory" in text or "std::bad_alloc" in text or "ran out of memory" in text:
+            job.why = "CBMC out of memory (cap %d GB)" % mem
+        else:
+            job.why = "FAILED without failed checks (undetermined=%d)" % res["undetermined"]
         return
     job.status = "fail"
 
@@ -483,8 +491,16 @@ def main(argv):
         return 2
     scratch = make_scratch(pid or "x")
     logdir = os.path.join(VERIF, "logs", "%s.%s" % (pid, tier))
+    lock = os.path.join(logdir, ".pid")
+    try:
+        other = int(open(lock).read())
+        os.kill(other, 0)
+        logdir += ".%d" % os.getpid()   # another run of the same check is alive: do not disturb its logs
+    except (OSError, ValueError):
+        pass
     shutil.rmtree(logdir, ignore_errors=True)
     os.makedirs(logdir)
+    open(os.path.join(logdir, ".pid"), "w").write(str(os.getpid()))
     log("== %s tier=%s seed=%d scratch=%s harnesses=%d engineB=%d" % (pid, tier, seed, scratch, len(sel), len(engine_b)))
     jobs = [Job(n, s) for n, s in sel.items()]
     # VERIF_SEED only permutes scheduling: a solver query has no randomness
@@ -601,8 +617,8 @@ def write_evidence(pid, tier, seed, jobs, eb_results, wall, violations, known_li
         decided = j.status in ("ok", "known", "fail")
         if decided:
             evaluations += nchecks + ncov
-            nontrivial += len([c for c in user if c["status"] in ("SUCCESS", "FAILURE")]) + \
-                len([c for c in r.get("covers", []) if c["status"] == "SATISFIED"])
+            nontrivial += len({(c["loc"], c["desc"]) for c in user if c["status"] in ("SUCCESS", "FAILURE")}) + \
+                len({(c["loc"], c["desc"]) for c in r.get("covers", []) if c["status"] == "SATISFIED"})
         solver_time += r.get("time_s") or 0
         s = j.spec
         for a in s.get("assumptions", []):
@@ -613,7 +629,7 @@ def write_evidence(pid, tier, seed, jobs, eb_results, wall, violations, known_li
             "harness": j.name, "kernel": s.get("kernel", ""), "status": j.status, "why": j.why,
             "functions_encoded": s.get("functions", []), "bounds": s.get("bounds", ""),
             "cbmc_checks": nchecks, "harness_assertions": len(user), "failed": r.get("n_failed", 0),
-            "cover_witnesses": ["%s=%s" % (c["desc"] or c["id"], c["status"]) for c in r.get("covers", [])],
+            "cover_witnesses": sorted({"%s=%s" % (c["desc"] or c["id"], c["status"]) for c in r.get("covers", []) if c["status"] == "SATISFIED"}),
             "kani_verification_time_s": r.get("time_s"), "wall_s": round(j.wall, 1),
         })
     for r in eb_results:
